@@ -111,9 +111,55 @@ def _height_class(h, regtest):
     return out
 
 
+def check_coinbase_heightless(case):
+    """The call form without a height (pre-BIP34 style, explicit reward): everything the statement says that does not
+    depend on a height still holds - one input spending the null outpoint, the script as given and at most 100 bytes,
+    the commitment output and reserved-value witness exactly when a witness merkle root is supplied."""
+    import bits.tx
+
+    extra = bx(case.get("extra", ""))
+    spk = bx(case.get("spk", "51"))
+    root = bx(case["root"]) if case.get("root") else None
+    reward = case["value"]
+    f = Fails()
+    cls = ["nt:no-height", "nt:no-height/with-commitment" if root is not None else "nt:no-height/without-commitment"]
+    got = attempt(bits.tx.coinbase_tx, extra, spk, block_reward=reward, witness_merkle_root_hash=root, **({"regtest": True} if case.get("regtest") else {}))
+    if len(extra) > 100:
+        cls.append("nt:no-height/script>100")
+        f.expect(raised(got), "coinbase/not-refused/script>100/no-height", repr(got)[:80])
+        return cls, f
+    if raised(got):
+        f.add(f"coinbase/raises-{got.kind}/no-height", got)
+        return cls, f
+    try:
+        tx, end = txref.parse(got)
+    except Exception as e:  # noqa: BLE001
+        f.add("coinbase/unparseable/no-height", repr(e))
+        return cls, f
+    f.expect(end == len(got), "coinbase/trailing-bytes")
+    if f.expect(len(tx["ins"]) == 1, "coinbase/input-count", len(tx["ins"])):
+        i = tx["ins"][0]
+        f.expect(i["txid"] == b"\x00" * 32 and i["vout"] == 0xFFFFFFFF, "coinbase/outpoint-not-null", i["txid"].hex())
+        f.expect(i["script"] == extra, "coinbase/script-ne-given/no-height", i["script"][:16].hex())
+        if root is not None:
+            f.expect(tx["segwit"] and i["witness"] == [b"\x00" * 32], "coinbase/reserved-value-witness-missing/no-height", repr(i["witness"])[:80])
+        else:
+            f.expect(not tx["segwit"], "coinbase/witness-without-commitment/no-height")
+    if f.expect(len(tx["outs"]) == (2 if root is not None else 1), "coinbase/output-count/no-height", len(tx["outs"])):
+        o = tx["outs"][0]
+        f.expect(o["script"] == spk, "coinbase/output-script")
+        f.expect(o["value"] == reward, "coinbase/value-ne-expected/no-height", f"value={o['value']} want={reward}")
+        if root is not None:
+            c = tx["outs"][1]
+            f.expect(c["value"] == 0 and c["script"] == chain.COMMITMENT_HEADER + root, "coinbase/commitment-output/no-height", c["script"].hex())
+    return cls, f
+
+
 def check_coinbase(case):
     import bits.tx
 
+    if case["height"] is None:
+        return check_coinbase_heightless(case)
     h = case["height"]
     regtest = case["regtest"]
     extra = bx(case.get("extra", ""))
@@ -198,8 +244,18 @@ def enum_coinbase(tier):
 
 @st.composite
 def coinbase_cases(draw):
-    hk = draw(st.sampled_from(["bound", "halving", "small", "any"]))
+    hk = draw(st.sampled_from(["bound", "halving", "small", "any", "any", "none"]))
     regtest = draw(st.booleans())
+    if hk == "none":
+        # no height: the reward is given explicitly
+        n = draw(st.sampled_from([0, 1, 4, 40, 99, 100, 101, 110]) | st.integers(0, 100))
+        case = {
+            "height": None, "regtest": regtest, "extra": (draw(st.binary(min_size=1, max_size=2)) * 60)[:n].hex(), "spk": draw(st.binary(min_size=1, max_size=40)).hex(),
+            "value": draw(st.sampled_from([1, 50 * 10**8, 25 * 10**8, 10**8]) | st.integers(1, 50 * 10**8)),
+        }
+        if draw(st.booleans()):
+            case["root"] = draw(st.binary(min_size=32, max_size=32)).hex()
+        return case
     if hk == "bound":
         h = draw(st.sampled_from(HEIGHT_BOUNDS))
     elif hk == "halving":
@@ -408,7 +464,7 @@ def targets(tier):
         Target("coinbase-heights", check_coinbase, enumerate_=enum_coinbase,
                required=["nt:height-0", "nt:height-17", "nt:height-128", "nt:height-32768", "nt:halving-210000", "nt:halving-150-regtest", "nt:mainnet-at-regtest-halving", "nt:after-same-height-other-schedule"], exhaustive=True),
         Target("coinbase", check_coinbase, strategy=lambda tier: coinbase_cases(), budget={"quick": 6000, "thorough": 120000},
-               required=["nt:script-101", "nt:script-100", "nt:with-commitment", "reward:over", "reward:half", "nt:after-same-height-other-schedule"]),
+               required=["nt:script-101", "nt:script-100", "nt:with-commitment", "reward:over", "reward:half", "nt:after-same-height-other-schedule", "nt:no-height/with-commitment", "nt:no-height/without-commitment", "nt:no-height/script>100"]),
         Target("block", check_block, strategy=lambda tier: block_cases(thorough), budget={"quick": 1500, "thorough": 30000},
                required=["nt:block>=2-txs", "nt:block-with-segwit-tx", "nt:block-dup-tx", "nt:block-starts-with-coinbase", "nt:block-version>=2-with-coinbase", "nt:block-coinbase-with-witness", "nt:block-tx-wit-item>=253", "nt:block-tx-script>=253", "nt:block-tx-script>=65536", "nt:block-tx-wit-item>=65536"]),
         Target("mine-block", check_mine, strategy=lambda tier: mine_cases(), budget={"quick": 300, "thorough": 6000},
